@@ -155,6 +155,7 @@ def make_transport_class():
             self.connected = False
             self.fail_send = False
             self.close_raises = False     # like TransportTCP.close() after a connection reset
+            self.close_suspends = 0       # close() awaits this many loop iterations (writer.wait_closed(), ws close handshake)
 
         def requires_length_header(self):
             return self.lenreq
@@ -197,6 +198,8 @@ def make_transport_class():
 
         async def close(self):
             self.closed += 1
+            for _ in range(self.close_suspends):
+                await asyncio.sleep(0)
             if self.close_raises:
                 raise ConnectionResetError('connection reset by peer')
 
